@@ -279,6 +279,8 @@ def check_metrics(ck, repo):
             for o in outs:
                 ok = False
                 want = None
+                if o.kind == "return":
+                    o.value = famify(o.value)
                 if o.kind == "return" and isinstance(o.value, ListV) and o.value.kind == "fam" and isinstance(o.value.elem, Num):
                     x = Rat.sym("self.feed_compositions[#b0].p", ("nonneg", "comp_p"))
                     if basis == "molar":
@@ -301,6 +303,8 @@ def check_metrics(ck, repo):
     outs = analyse(repo, f, make_config({"self.partial_fluxes": "notnone"}))
     for o in outs:
         ok = False
+        if o.kind == "return":
+            o.value = famify(o.value)
         if o.kind == "return" and isinstance(o.value, ListV) and o.value.kind == "fam":
             p = comp_p(o.value.elem)
             j0, j1 = Rat.sym("self.partial_fluxes[#b0][0]"), Rat.sym("self.partial_fluxes[#b0][1]")
